@@ -356,6 +356,11 @@ func execCorrupt(w *World, st *Step) {
 	w.probe("corrupt-accepted-and-validated")
 	// Validate()==nil: it must be a genuine set.
 	m, msg := w.battery(dst, st.S[1])
+	if m == nil && msg == "" {
+		w.disk(rEntryNames[e], what, where, "accepted-valid-giant-unchecked")
+		release()
+		return
+	}
 	if msg != "" {
 		w.fail("C10", "validated-not-a-set", msg, fmt.Sprintf("%s accepted a %s-corrupted stream (%s), Validate()==nil, but: %s", rEntryNames[e], what, where, msg))
 		release()
@@ -462,6 +467,9 @@ func (w *World) battery(bm *roaring.Bitmap, other int) (m *model.Set32, msg stri
 			msg = fmt.Sprintf("panic while using the bitmap: %v", r)
 		}
 	}()
+	if bm.GetCardinality() > GiantCard {
+		return nil, "" // too large for the element-wise battery; counted, not judged
+	}
 	arr := bm.ToArray()
 	for i := 1; i < len(arr); i++ {
 		if arr[i-1] >= arr[i] {
